@@ -297,11 +297,12 @@ def solo_families(kind, kt, vt):
     v = Vals(300)
     is_map = kind in ("Map", "MapOf")
     full = {"k%d" % i: (FOCUS, i) for i in range(1, slots + 1)}
-    keys = dict(full, k50=(FOCUS2, 50), k60=(OTHER, 3), k61=(OTHER, 4))
+    keys = dict(full, k50=(FOCUS2, 50), k60=(OTHER, 3), k61=(OTHER, 4), k62=(FOCUS, 62))
     pin = pin_of(keys)
     st = "Store" if is_map else "Set"
     grow_pre = [S("BulkStore", lo=1, hi=thr + 1)] + [S(st, k, v(), d=0) for k in sorted(full)] + [S(st, "k60", v())]
     small_pre = [S(st, "k1", v()), S(st, "k2", v()), S(st, "k60", v())]
+    nil_pre = small_pre + [S(st, "k62", "nil")]   # k62: present in the writer's bucket, holding the zero value / nil
     if is_map:
         writers = {
             "store-update": (small_pre, [S("Store", "k1", v())]),
@@ -317,6 +318,7 @@ def solo_families(kind, kt, vt):
             "load-same": [S("Load", "k1")], "load-mate": [S("Load", "k2")], "load-unrelated": [S("Load", "k60")], "load-absent": [S("Load", "k61")],
             "loadorstore-hit": [S("LoadOrStore", "k2", v())], "loadorcompute-hit": [S("LoadOrCompute", "k60", v())], "size": [S("Size")],
         }
+        nil_readers = {"load-nil": [S("Load", "k62")], "loadorstore-nil-hit": [S("LoadOrStore", "k62", v())], "loadorcompute-nil-hit": [S("LoadOrCompute", "k62", v())]}
     else:
         writers = {
             "set-update": (small_pre, [S("Set", "k1", v(), d=50)]),
@@ -331,12 +333,18 @@ def solo_families(kind, kt, vt):
             "get-same": [S("Get", "k1")], "get-mate": [S("GetWithTTL", "k2")], "get-unrelated": [S("GetWithExpiration", "k60")], "get-absent": [S("Get", "k61")],
             "count": [S("Count")],
         }
+        nil_readers = {"get-nil": [S("Get", "k62")]}
     # a delete that leaves its bucket empty on a table at its shrink threshold: the writer is stopped at every step of the shrink
     shrink_pin = pin_of({"k1": (FOCUS, 1), "k2": (OTHER, 2), "k60": (OTHER, 3), "k61": (OTHER, 4), "k3": (FOCUS2, 3)})
     shrink_pre = [S("BulkStore", lo=1, hi=thr + slots + 2), S(st, "k1", v()), S(st, "k2", v()), S(st, "k60", v()), S("BulkDelete", lo=1, hi=thr + slots + 2)]
     writers["shrink"] = (shrink_pre, [S("Delete", "k1")])
-    for wn, (pre, w) in writers.items():
-        for rn, r in readers.items():
+    combos = [(wn, pre, w, readers) for wn, (pre, w) in writers.items()]
+    # lookups of a present key whose value is the zero value / nil, behind a writer stalled in the same bucket
+    for wn in ("compute-fn", "store-update", "set-update", "delete"):
+        if wn in writers:
+            combos.append((wn + "+nil", nil_pre, writers[wn][1], nil_readers))
+    for (wn, pre, w, rs) in combos:
+        for rn, r in rs.items():
             if wn == "clear" and rn in ("loadorstore-hit", "loadorcompute-hit"):
                 continue  # after Clear published, the key is absent and the call is a get-or-CREATE (a writer): outside C16
             sc = base("S-%s-vs-%s/%s[%s]" % (wn, rn, kind, kt), kind, kt, vt, shrink_pin if wn == "shrink" else pin, pre, [w, r], ["k1", "k2", "k3"], {"kind": "solo", "writer": 1, "reader": 2, "parkat": -1, "ownmax": 200})
